@@ -19,6 +19,8 @@ declared C++ types (fixed-width integer ranges) — they restrict nothing a C++
 caller can pass.
 -/
 import Proofs.TableTrackWf
+import Proofs.TableLists
+import Proofs.TableListsWf
 
 namespace EngineModel.Properties.C18
 open EngineModel EngineModel.Table
@@ -39,6 +41,12 @@ theorem C18_track_roundtrip {s : Schema2} {st : TStmts} (ha : alignedT s st = tr
     (h : tAdd st d r = (d', .ok i)) :
     tGet st d' i = .ok (some (normRowT s d.uuid none i r)) :=
   track_add_get ha hwf.ids hr h
+
+/-- `add` leaves every other row as it was. -/
+theorem C18_track_add_frame {s : Schema2} {st : TStmts} (ha : alignedT s st = true) {d d' : TDb}
+    {r : Row TField} {i : Int} (h : tAdd st d r = (d', .ok i)) (j : Int) (hj : j ≠ i) :
+    findRow .id d'.rows j = findRow .id d.rows j :=
+  track_add_frame ha h j hj
 
 /-- **Update.**  After `update r` of an existing row, `get r.id` returns the row
 written, in normal form; the last-edit time is the database's stamp on 2.20.3+
@@ -117,7 +125,125 @@ theorem C18_track_roundtrip_current (s : Schema2) :
   intro uuid clock hu ops hops r hr d' i d h
   exact track_add_get h2 (wf_run h2 (TDb.empty_wf uuid clock hu) ops hops).ids hr h
 
+/-! ## playlist_table and playlist_entity_table -/
+
+/-- The list-table statements regenerated from the current source are aligned with the Spec. -/
+theorem C18_list_bindings_aligned : alignedL genLStmts = true := by decide
+
+/-- **Playlist round trip.**  `get` after a successful `add r` returns the row
+written: the id assigned, the last-edit time in whole seconds (it is stored as
+text `YYYY-MM-DD HH:MM:SS`; `wtRowP` includes that its floor is a representable
+time point — see `C18_playlist_last_edit_floor_counterexample`). -/
+theorem C18_playlist_roundtrip {st : LStmts} (ha : alignedL st = true) {d d' : LDb}
+    (hwf : idsBelow .id d.pl d.plSeq) {r : Row PField} (hr : wtRowP r) {i : Int}
+    (h : pAdd st d r = (d', .ok i)) :
+    pGet st d' i = .ok (some (normRowP i r)) :=
+  playlist_add_get ha hwf hr h
+
+/-- **Playlist update.**  `get` after a successful `update r` returns the row written. -/
+theorem C18_playlist_update {st : LStmts} (ha : alignedL st = true) {d d' : LDb}
+    {r : Row PField} (hr : wtRowP r) {i : Int} (hid : r .id = .int i)
+    (h : pUpdate st d r = (d', .ok ())) :
+    pGet st d' i = .ok (some (normRowP i r)) :=
+  playlist_update_get ha hr hid h
+
+/-- `remove` of a playlist id with no row reports an error and changes nothing. -/
+theorem C18_playlist_missing_row_errors {st : LStmts} (ha : alignedL st = true) {d : LDb} {i : Int}
+    (h : findRow .id d.pl i = none) : pRemove st d i = (d, .throw .invalid_argument) :=
+  playlist_remove_missing ha h
+
+/-- Full statement (false of the code, see the counterexample below):
+`∀ d r dup i, eAddBack st d r dup = (d', .ok i) → (the row was inserted) →
+   eGet st d' (list of r) (track of r) = .ok (some (normRowE i r))`.
+
+**Entity round trip (partial).**  Proved under the explicit restriction `noEntry`:
+no entry of the same (list, track) pair exists yet — `get(list_id, track_id)`
+has no way to name the database a track belongs to. -/
+theorem C18_entity_roundtrip_partial {st : LStmts} (ha : alignedL st = true) {d d' : LDb}
+    {r : Row EField} (hr : wtRowE r) {dup : Bool} {i l tr : Int}
+    (hl : r .list_id = .int l) (ht : r .track_id = .int tr)
+    (hnone : noEntry d.pe l tr) (h : eAddBack st d r dup = (d', .ok i)) :
+    eGet st d' l tr = .ok (some (normRowE i r)) :=
+  entity_add_get ha hr hl ht hnone h
+
+/-- `remove` of an entity that does not exist reports an error and changes nothing. -/
+theorem C18_entity_missing_row_errors {st : LStmts} (ha : alignedL st = true) {d : LDb} {l e : Int}
+    (h : d.pe.find? (fun x => x .listId == .int l && rowId .id x == e) = none) :
+    eRemove st d l e = (d, .throw .invalid_argument) :=
+  entity_remove_missing ha h
+
+/-- **Histories (list tables).**  The invariant the playlist round trip assumes
+holds after every sequence of playlist add / update / remove and entity
+add_back / remove / clear, from any state that satisfies it. -/
+theorem C18_list_histories {st : LStmts} (ha : alignedL st = true) {d : LDb} (hwf : d.Wf) (ops : List LOp) :
+    (lRun st d ops).Wf :=
+  wf_lRun ha hwf ops
+
+/-- The playlist round trip after any history from the empty tables, for the
+statements of the current source. -/
+theorem C18_playlist_roundtrip_current (ops : List LOp) (r : Row PField) (hr : wtRowP r) (d' : LDb) (i : Int)
+    (h : pAdd genLStmts (lRun genLStmts LDb.empty ops) r = (d', .ok i)) :
+    pGet genLStmts d' i = .ok (some (normRowP i r)) :=
+  playlist_add_get C18_list_bindings_aligned (wf_lRun C18_list_bindings_aligned LDb.empty_wf ops) hr h
+
+/-- An entity row. -/
+def exEntity (l t : Int) (u : Bytes) (m : Int) : Row EField := fun f =>
+  match f with
+  | .id => .int 0
+  | .list_id => .int l
+  | .track_id => .int t
+  | .database_uuid => .str u
+  | .next_entity_id => .int 0
+  | .membership_reference => .int m
+
+/-- **Counterexample to the unrestricted entity round trip.**  After
+`add_back (list 1, track 1, uuid "b")` and `add_back (list 1, track 1, uuid "a", ref 5)`
+— both accepted, ids 1 and 2 — `get(1, 1)` returns the first row, not the row
+just written.  (Replayed on the real library: corpus/C18/entity_get_ambiguous.txt.) -/
+theorem C18_entity_roundtrip_counterexample :
+    let d1 := (eAddBack genLStmts LDb.empty (exEntity 1 1 [98] 0) false).1
+    let r2 := exEntity 1 1 [97] 5
+    (eAddBack genLStmts d1 r2 false).2 = .ok 2 ∧
+    (match eGet genLStmts (eAddBack genLStmts d1 r2 false).1 1 1 with
+     | .ok (some g) => decide (g .id = .int 1 ∧ g .database_uuid = .str [98] ∧ g .id ≠ normRowE 2 r2 .id)
+     | _ => false) = true := by
+  decide
+
+/-- A playlist row. -/
+def exPlaylist (title : Bytes) (parent next lastEdit : Int) (persisted : Bool) : Row PField := fun f =>
+  match f with
+  | .id => .int 0
+  | .title => .str title
+  | .parent_list_id => .int parent
+  | .is_persisted => .bool persisted
+  | .next_list_id => .int next
+  | .last_edit_time => .time lastEdit
+  | .is_explicitly_exported => .bool true
+
+/-- **The first second of the time-point range.**  A playlist whose last-edit
+time lies in `[-2^63, -9223372036000000001]` ns is accepted by `add`, but `get`
+then has undefined behaviour: the stored text is the floor to whole seconds,
+`-9223372037 s`, which `parse_ft` converts back to nanoseconds with a signed
+overflow.  (`wtRowP` excludes exactly these values.  Replayed on the real
+library: corpus/C18/playlist_last_edit_floor.txt.) -/
+theorem C18_playlist_last_edit_floor_counterexample :
+    let r := exPlaylist [65] 0 0 (-9223372036854775808) false
+    (pAdd genLStmts LDb.empty r).2 = .ok 1 ∧
+    (match pGet genLStmts (pAdd genLStmts LDb.empty r).1 1 with
+     | .ub .signed_overflow => true
+     | _ => false) = true := by
+  decide
+
 /-! ### non-vacuity -/
+
+example : wtRowP (exPlaylist [65] 0 0 1500000000123456789 true) := by intro f; cases f <;> rfl
+example : wtRowE (exEntity 1 1 [97] 5) := by intro f; cases f <;> rfl
+example : (pAdd genLStmts LDb.empty (exPlaylist [65] 0 0 1500000000123456789 true)).2 = .ok 1 := by decide
+example : (pUpdate genLStmts (pAdd genLStmts LDb.empty (exPlaylist [65] 0 0 1 true)).1
+    (fun f => if f = .id then .int 1 else exPlaylist [66] 0 0 2 false f)).2 = .ok () := by decide
+example : noEntry LDb.empty.pe 1 1 := by intro x hx; cases hx
+example : (eAddBack genLStmts LDb.empty (exEntity 1 1 [97] 5) false).2 = .ok 1 := by decide
+
 
 /-- A track row with every optional absent. -/
 def exRow : Row TField := fun f =>
